@@ -82,7 +82,11 @@ impl<'data> DataVerifier<'data> {
 
     /// Verify each peers' signatures.
     pub fn verify(&self) -> Result<(), DataVerifierError> {
-        for peer_info in self.grouped_cids.values() {
+        // in the order of peer ids: which peer an error names must not depend on the hash order
+        let mut peer_infos: Vec<_> = self.grouped_cids.iter().collect();
+        peer_infos.sort_by(|left, right| left.0.cmp(right.0));
+
+        for (_, peer_info) in peer_infos {
             peer_info
                 .public_key
                 .verify(&peer_info.cids, self.salt, peer_info.signature)
@@ -116,7 +120,11 @@ impl<'data> DataVerifier<'data> {
     pub fn merge(mut self, other: Self) -> Result<SignatureStore, DataVerifierError> {
         use std::collections::hash_map::Entry::*;
 
-        for (other_peer_pk, mut other_info) in other.grouped_cids {
+        // in the order of peer ids: which peer an error names must not depend on the hash order
+        let mut other_grouped_cids: Vec<_> = other.grouped_cids.into_iter().collect();
+        other_grouped_cids.sort_by(|left, right| left.0.cmp(&right.0));
+
+        for (other_peer_pk, mut other_info) in other_grouped_cids {
             let our_info = self.grouped_cids.entry(other_peer_pk);
             match our_info {
                 Occupied(mut our_info_ent) => {
